@@ -52,6 +52,13 @@ M["m18-C01-else_-mutates-receiver"] = ("C01", [(T, '''    @builder
         return self
 ''')])
 
+M["m28-C01-autoalias-also-drops-subquery-orderby"] = ("C01", [(Q, '''            selectable.alias = "sq%d" % sub_query_count
+            self._subquery_count = sub_query_count + 1
+''', '''            selectable.alias = "sq%d" % sub_query_count
+            if isinstance(selectable, QueryBuilder) and selectable._limit is None:
+                selectable._orderbys = []  # ORDER BY without LIMIT in a derived table is a no-op
+            self._subquery_count = sub_query_count + 1
+''')])
 M["m20-C02-append-render-pop"] = ("C02", [(PG, '''            from_clauses = list(self._from)
             if self._joins:
                 from_clauses.append(
@@ -68,6 +75,21 @@ M["m20-C02-append-render-pop"] = ("C02", [(PG, '''            from_clauses = lis
             finally:
                 if self._joins:
                     self._from.pop()
+''')])
+M["m27-C02-append-render-pop-no-finally"] = ("C02", [(PG, '''            from_clauses = list(self._from)
+            if self._joins:
+                from_clauses.append(
+                    self._update_table.as_(self._update_table.get_table_name() + "_")
+                )
+
+            if from_clauses:
+                querystring += self._from_sql(ctx, from_clauses)
+''', '''            if self._joins:
+                self._from.append(self._update_table.as_(self._update_table.get_table_name() + "_"))
+            if self._from:
+                querystring += self._from_sql(ctx)
+            if self._joins:
+                self._from.pop()
 ''')])
 M["m21-C02-memoised-sql"] = ("C02", [(Q, '''    def get_sql(self, ctx: SqlContext | None = None) -> str:
         if not ctx:
